@@ -175,7 +175,7 @@ def run(chk, model_ok=True):
     hist = {}
     n_req = 0
     # 1. the real sync and async clients
-    n_cli = 36 if quick else 900
+    n_cli = 90 if quick else 2700
     for k in range(n_cli):
         auth = [0, 1, 2][k % 3]
         priv = rng.choice([0, 1, 2]) if auth else 0
@@ -205,7 +205,7 @@ def run(chk, model_ok=True):
                 fail(f"{key}: get({o}) returned {v!r}, the agent answered {ans}", line)
     # 2. raw sockets driven like the clients do (deferred default user, Report, set_keys, second probe), replayed on the model
     all_sess = []
-    n_hist = 30 if quick else 600
+    n_hist = 75 if quick else 1800
     for h in range(n_hist):
         auth = rng.choice([0, 1, 2])
         peer = sessions.rand_v3_peer(rng, auth=auth, priv=rng.choice([0, 1, 2]) if auth else 0)
